@@ -171,7 +171,14 @@ func loaderChild(args []string) int {
 			case "attempt":
 				emit(&loaderEv{Op: "attempt", N: attempt, Tr: tr, Main: c.Main, Personal: c.Personal, MaxAtt: c.MaxAtt, Cap: c.CapUS})
 			case "delay":
-				emit(&loaderEv{Op: "delay", N: attempt, D: int(d / time.Microsecond), Tr: tr, Main: c.Main, Personal: c.Personal, MaxAtt: c.MaxAtt, Cap: c.CapUS})
+				us := int64(d / time.Microsecond)
+				if us > 2000000000 { // keep within the 32-bit integers of TLC (monotone clamp)
+					us = 2000000000
+				}
+				if us < -2000000000 {
+					us = -2000000000
+				}
+				emit(&loaderEv{Op: "delay", N: attempt, D: int(us), Tr: tr, Main: c.Main, Personal: c.Personal, MaxAtt: c.MaxAtt, Cap: c.CapUS})
 			}
 		}
 		rc := recovery.RetryConfig{MaxAttempts: c.MaxAtt, BaseDelay: time.Duration(c.BaseUS) * time.Microsecond,
